@@ -30,6 +30,8 @@ def run(chk):
     relocrules.bound_unbound(chk, [emit])
     from lib import opkind
     opkind.run(chk, emit, floor=150)
+    from lib import sentinel
+    sentinel.run_units(chk, ("a64",))
 
     return chk.finish(
         level="other",
